@@ -12,7 +12,7 @@
 //
 // Protocol (fields separated by one space; byte strings hex, "-" = empty string):
 //
-//	req <srvT> <cih> <strict> <hT> <omit> <remote> <tls> <host> <hdrs> <tbl> <fails> <hops> <mode> <lb>
+//	req <srvT> <cih> <strict> <hT> <omit> <remote> <tls> <host> <hdrs> <tbl> <fails> <hops> <mode> <lb> <rt>
 //
 //	srvT   nil | . | cidr,cidr,…      server trusted_proxies (nil = not configured, . = []);
 //	       dyn:. | dyn:cidr,…         the same ranges served by a request-scoped IPRangeSource module:
@@ -38,6 +38,8 @@
 //
 //	lb     0|1|2                      reverse_proxy selection policy: default | client_ip_hash over three
 //	                                  upstreams (oracle only) | cookie (answer field ck = Secure attribute)
+//	rt     . | PA,PA,…                 per range string of srvT then hT: netip.ParsePrefix ok, netip.ParseAddr ok
+//	                                  (a configuration with an invalid range answers "provision-error")
 //	mode   0|1                        0 GET over HTTP/1.1, 1 websocket over HTTP/2 (extended CONNECT,
 //	                                  `:protocol: websocket`): ServeHTTP rewrites the prepared request
 //
@@ -255,6 +257,7 @@ type kase struct {
 	hdrs    []hdrField
 	tbl     string // as given on the line ("" when the line is being built)
 	fails   int    // 0..2 round trips fail before one succeeds (proxy retry loop)
+	rt      string // as given on the line: net/netip's verdict on every range string
 	lb      int    // load-balancing policy: 0 default, 1 client_ip_hash over three upstreams, 2 cookie
 	mode    int    // 0 plain GET over HTTP/1.1, 1 websocket over HTTP/2 (extended CONNECT with :protocol)
 	hops    int    // request header ops of reverse_proxy: 0 none, 1 set an unrelated field, 2 delete X-Forwarded-Host
@@ -309,7 +312,7 @@ func cidrSyntax(p string) bool {
 	}
 	for i := 0; i < len(p); i++ {
 		c := p[i]
-		if !(c >= '0' && c <= '9' || c >= 'a' && c <= 'f' || c >= 'A' && c <= 'F' || c == ':' || c == '.' || c == '/') {
+		if !(c >= '0' && c <= '9' || c >= 'a' && c <= 'z' || c >= 'A' && c <= 'Z' || c == ':' || c == '.' || c == '/' || c == '%' || c == '_' || c == '-') {
 			return false
 		}
 	}
@@ -343,14 +346,14 @@ func (k *kase) line() string {
 	if k.early {
 		tl = 3
 	}
-	return fmt.Sprintf("req %s %s %d %s %s %s %d %s %s %s %d %d %d %d",
+	return fmt.Sprintf("req %s %s %d %s %s %s %d %s %s %s %d %d %d %d %s",
 		k.srvField(), listField(k.cih, k.cihNil, true), k.strict,
-		listField(k.hT, false, false), omit, core.Hex(k.remote), tl, core.Hex(k.host), hd, k.table(), k.fails, k.hops, k.mode, k.lb)
+		listField(k.hT, false, false), omit, core.Hex(k.remote), tl, core.Hex(k.host), hd, k.table(), k.fails, k.hops, k.mode, k.lb, k.rangeVerdicts())
 }
 
 func parseLine(line string) (*kase, bool) {
 	f := strings.Fields(line)
-	if len(f) != 15 || f[0] != "req" {
+	if len(f) != 16 || f[0] != "req" {
 		return nil, false
 	}
 	k := &kase{}
@@ -420,6 +423,7 @@ func parseLine(line string) (*kase, bool) {
 		}
 	}
 	k.tbl = f[10]
+	k.rt = f[15]
 	switch f[14] {
 	case "0", "1", "2":
 		k.lb = int(f[14][0] - '0')
@@ -445,6 +449,28 @@ func parseLine(line string) (*kase, bool) {
 }
 
 // ---------------------------------------------------------------- netip oracle table
+
+// rangeVerdicts: for every range string of srvT then hT, two bits — does netip.ParsePrefix accept it,
+// does netip.ParseAddr accept it ("." without ranges).  Which of the two caddy has to ask is glue
+// (CIDRExpressionToPrefix, reverse_proxy Provision) and decided by the model.
+func (k *kase) rangeVerdicts() string {
+	var out []string
+	for _, r := range append(append([]string{}, k.srvT...), k.hT...) {
+		_, e1 := netip.ParsePrefix(r)
+		_, e2 := netip.ParseAddr(r)
+		out = append(out, b01(e1 == nil)+b01(e2 == nil))
+	}
+	if len(out) == 0 {
+		return "."
+	}
+	return strings.Join(out, ",")
+}
+
+// rangesValid is the documented rule: an expression with a slash is a CIDR, anything else one address.
+func rangesValid(xs []string) bool {
+	_, err := parsePrefixes(xs)
+	return err == nil
+}
 
 func addrByte(c byte) bool {
 	return c >= '0' && c <= '9' || c >= 'a' && c <= 'f' || c >= 'A' && c <= 'F' || c == ':' || c == '.'
@@ -706,7 +732,11 @@ func (p *prop) server(k *kase) (*caddyhttp.Server, error) {
 	if omit != nil {
 		probe["omit"] = omit
 	}
-	probe["ranges"] = k.matcherRanges()
+	if rangesValid(k.srvT) && rangesValid(k.hT) {
+		probe["ranges"] = k.matcherRanges()
+	} else {
+		probe["ranges"] = fixedRanges // keep the probe's own provisioning out of the error path under test
+	}
 	if k.cel() {
 		probe["cel"] = true
 	}
@@ -884,8 +914,23 @@ func (p *prop) Run(line string) core.Outcome {
 	if !ok {
 		return core.Outcome{Impl: "bad-op"}
 	}
+	if k.rt != k.rangeVerdicts() {
+		return core.Outcome{Impl: "bad-table", Tags: []string{"bad-table"}}
+	}
+	if !rangesValid(k.srvT) || !rangesValid(k.hT) {
+		// a range that is neither a CIDR nor an address: provisioning has to fail
+		if k.srvDyn && !rangesValid(k.srvT) {
+			return core.Outcome{Impl: "bad-op"} // the request-scoped source is fed parsed prefixes only
+		}
+		if _, err := p.server(k); err != nil {
+			return core.Outcome{Impl: "provision-error", Tags: []string{"provision-error:invalid-range"}}
+		}
+		return core.Outcome{Impl: "provisioned", Tags: []string{"provision-error:missed"},
+			Failures: []core.Failure{{Class: "invalid-trusted-range-accepted",
+				What: fmt.Sprintf("server trusted_proxies %q / reverse_proxy trusted_proxies %q provisioned although a range is invalid", k.srvT, k.hT)}}}
+	}
 	if t := k.table(); t == "!" {
-		return core.Outcome{Impl: "bad-op"} // a range netip rejects: never generated
+		return core.Outcome{Impl: "bad-op"}
 	} else if !k.tableOK(t) {
 		return core.Outcome{Impl: "bad-table", Tags: []string{"bad-table"}}
 	}
